@@ -38,6 +38,26 @@ CLAIMED = {
   note=COMMON_NOTE + "CPython re is a modelled subset: rows outside the grammar (*/re/, ~/re/, <name>, metacharacters; 218 of "
        "1540 shipped lines) are decided by re and only counted.",
   design="§5 C07", technique="Lean 4 proof (induction over token lists) + differential correspondence, exhaustive on a small alphabet"),
+ "C08": dict(
+  text="Lean theorems: the stable sort used for patches and configs is a permutation at every level (paths multiset preserved, "
+       "children stay in their block), yields keys in non-decreasing order for the strict weak order of Python's tuple keys "
+       "(proved for SortKey and the order_config key), keeps equal-key (e.g. unmentioned) rows in place, commutes with deleting "
+       "any set of commands (independence of unrelated lines), keeps removal before re-creation of one rule and key, and is "
+       "idempotent; order_config is a permutation at every depth and idempotent, for every ordering rulebook. Tie: make_patch "
+       "(rows, nesting, order, sort keys) and Orderer.order_config vs the model on 3.2k (quick) generated rulebook/ordering/config "
+       "cases; oracle: the property's clauses on the real outputs incl. the erase-one-row experiment.",
+  note=COMMON_NOTE + "Python list.sort stability is an assumption validated by the tie; ordering rule rows inside the rule grammar; "
+       "vendor %logic functions are parameters; empty RefTracker.",
+  design="§5 C08", technique="Lean 4 proof (verified stable insertion sort, mutual induction over trees) + differential correspondence"),
+ "C16": dict(
+  text="Lean theorems over the model of the two front ends (api._diff_and_patch, api._read_old_new_diff_patch): for EVERY table of "
+       "logic functions, rulebook, ordering and config pair they return the same diff entries and the same patch (or the same "
+       "error); the displayed diff never depended on the composition; witness that the pre-repair composition (strip first) "
+       "differs for a logic that reads unchanged siblings. Tie: both real front ends vs the model on generated rulebooks served "
+       "through a RulebookProvider; oracle: both real front ends on the 192 shipped corpus pairs, per-vendor cross products and "
+       "generated pairs (diff entries and command paths must be equal).",
+  note=COMMON_NOTE + "vendor %logic functions are parameters (quantified over); no ACL, implicit defaults off.",
+  design="§5 C16", technique="Lean 4 proof (definitional equality of the two compositions for all logic tables) + differential correspondence + impl-vs-impl oracle on shipped corpus"),
 }
 REASONS = {}
 def main():
